@@ -516,6 +516,10 @@ func (r *Run) opRmBucket(op *Op) {
 			r.ok("bucket.semantics")
 			return
 		}
+		if b.Versioning != "" && resp.OK() {
+			// every version of every key went with the bucket, none of them deleted by id
+			r.fail("version.read", "deleting a bucket that still holds versions (its keys only read as deleted) succeeds "+r.bctx(), "409 BucketNotEmpty", resp.String())
+		}
 		r.fail("bucket.semantics", "deleting a non-empty bucket does not answer BucketNotEmpty "+r.bctx(), "409 BucketNotEmpty", resp.String())
 	}
 	if !resp.OK() {
